@@ -14,6 +14,7 @@
 namespace env
 {
 using u8 = unsigned char;
+using i8 = signed char;
 using u16 = unsigned short;
 using u32 = unsigned int;
 using f32 = float;
@@ -344,6 +345,28 @@ inline const int* ptr_table()
     return table;
 }
 
+// trivial copy operations, user-provided move operations that mark the source: trivially copy assignable but not
+// trivially move assignable (a handle that is cheap to copy but wants to know when it is moved from)
+struct Mva
+{
+    int32_t val;
+    Mva(int v) : val(v) {}
+    Mva(const Mva&) = default;
+    Mva& operator=(const Mva&) = default;
+    Mva(Mva&& o) noexcept : val(o.val) { o.val = MOVED; }
+    Mva& operator=(Mva&& o) noexcept
+    {
+        val = o.val;
+        if (this != &o) o.val = MOVED;
+        return *this;
+    }
+    ~Mva() = default;
+    friend bool operator==(const Mva& a, const Mva& b) { return a.val == b.val; }
+    friend bool operator<(const Mva& a, const Mva& b) { return a.val < b.val; }
+};
+static_assert(std::is_trivially_copy_assignable_v<Mva> && !std::is_trivially_move_assignable_v<Mva> &&
+              std::is_trivially_copy_constructible_v<Mva> && !std::is_trivially_move_constructible_v<Mva>);
+
 // a trivially copyable class that overloads unary operator& (COM-style handle): only std::addressof finds its address
 struct Amp
 {
@@ -413,6 +436,14 @@ struct VT<Big32>
             if (b.pad[i] != (b.v ^ (0x1010101 * (i + 1)))) return -6;
         return b.v;
     }
+    static int norm(int x) { return x; }
+    static constexpr bool tracked = false;
+};
+template <>
+struct VT<Mva>
+{
+    static Mva make(int x) { return Mva(x); }
+    static int read(const Mva& a) { return a.val; }
     static int norm(int x) { return x; }
     static constexpr bool tracked = false;
 };
